@@ -222,8 +222,10 @@ func (p *Planner) expandSelectTopNodePlan(plan *selectTopNode, parentPlan *selec
 
 	p.expandAggregatePlans(plan)
 
-	// if we have an index that can take over ordering, we ignore the order node
-	if plan.order != nil && !isOrderedByIndex(plan.selectNode.source) {
+	// if we have an index that can take over ordering, we ignore the order node. The documents of
+	// a related selection are fetched by the join (by document ID, or through the relation field),
+	// not through the index chosen for their scan, so their order node always stays.
+	if plan.order != nil && (parentPlan != nil || !isOrderedByIndex(plan.selectNode.source)) {
 		plan.order.plan = plan.planNode
 		plan.planNode = plan.order
 	}
